@@ -441,6 +441,7 @@ func runC04(c *Check) {
 			c.Gate(sfa, mk, "mark:after-publish", "the recovery mark is created only after the list without the host was published", p.NilErr("(app.IAppDCS).SetActiveNodes"))
 		}
 	})
+	extraC04(c)
 }
 
 // elemsOfSliceLit returns the elements of a `[]T{a, b}` literal value.
